@@ -73,7 +73,7 @@ Proof.
 Qed.
 
 (** ** the board as a list of cells *)
-Definition cell := option (ptype*color).
+Notation cell := (option (ptype*color)) (only parsing).
 Definition atl (l:list cell) (s:N) : cell := nth (N.to_nat s) l None.
 Lemma at_atl p s : at_ p s = atl (placement p) s.
 Proof. reflexivity. Qed.
@@ -135,18 +135,27 @@ Proof. unfold enemy, colour_at. destruct (at_ p s) as [[t c']|]; reflexivity. Qe
 Lemma occ_q p s : occ p s = match at_ p s with Some _ => true | None => false end.
 Proof. reflexivity. Qed.
 
+Lemma kings_unfold p c : kings p c = count_if (fun s => has p s King c).
+Proof. reflexivity. Qed.
+Lemma pawns_unfold p c : pawns p c = count_if (fun s => has p s Pawn c).
+Proof. reflexivity. Qed.
+Lemma men_unfold p c : men p c = count_if (own p c).
+Proof. reflexivity. Qed.
+Lemma king_sq_unfold p c : king_sq p c = find (fun s => has p s King c) all_sq.
+Proof. reflexivity. Qed.
+
 Lemma men_cntl p c : length (placement p) = 64%nat -> men p c = N.of_nat (cntl (q_own c) (placement p)).
 Proof.
-  intro Hl. unfold men. rewrite <- (count_if_cntl _ _ Hl). apply count_if_ext.
+  intro Hl. rewrite men_unfold. rewrite <- (count_if_cntl _ _ Hl). apply count_if_ext.
   intros s _. apply own_q.
 Qed.
 Lemma has_cntl p t c : length (placement p) = 64%nat ->
   count_if (fun s => has p s t c) = N.of_nat (cntl (q_has t c) (placement p)).
 Proof. intro Hl. rewrite <- (count_if_cntl _ _ Hl). reflexivity. Qed.
 Lemma pawns_cntl p c : length (placement p) = 64%nat -> pawns p c = N.of_nat (cntl (q_has Pawn c) (placement p)).
-Proof. apply has_cntl. Qed.
+Proof. intro Hl. rewrite pawns_unfold. apply has_cntl, Hl. Qed.
 Lemma kings_cntl p c : length (placement p) = 64%nat -> kings p c = N.of_nat (cntl (q_has King c) (placement p)).
-Proof. apply has_cntl. Qed.
+Proof. intro Hl. rewrite kings_unfold. apply has_cntl, Hl. Qed.
 
 (** ** colours and piece types *)
 Lemma color_eqb_eq a b : color_eqb a b = true <-> a = b.
@@ -193,10 +202,10 @@ Qed.
 
 Lemma king_sq_unique p c k : kings p c = 1 -> k < 64 -> has p k King c = true -> king_sq p c = Some k.
 Proof.
-  intros Hc Hk Hh. unfold king_sq.
+  intros Hc Hk Hh. rewrite king_sq_unfold. rewrite kings_unfold in Hc.
   destruct (find (fun s => has p s King c) all_sq) as [k'|] eqn:E.
   - apply find_some in E as [Hin Hh']. apply in_all_sq in Hin. f_equal.
-    apply (count_one_unique (fun s => has p s King c)); assumption.
+    exact (count_one_unique _ k' k Hc Hin Hk Hh' Hh).
   - exfalso. pose proof (find_none _ _ E k (proj2 (in_all_sq k) Hk)) as H. cbv beta in H. congruence.
 Qed.
 
@@ -230,13 +239,11 @@ Proof.
 Qed.
 Lemma attacked_by_ext c t : attacked_by p c t = attacked_by q c t.
 Proof. unfold attacked_by. rewrite attackers_ext. reflexivity. Qed.
-Lemma king_sq_ext c : king_sq p c = king_sq q c.
-Proof. unfold king_sq. f_equal. Qed.
 End Ext.
 
 Lemma king_sq_ext' p q c : placement p = placement q -> king_sq p c = king_sq q c.
 Proof.
-  intro E. unfold king_sq.
+  intro E. rewrite !king_sq_unfold.
   assert (H : forall l, find (fun s => has p s King c) l = find (fun s => has q s King c) l).
   { induction l as [|x l IH]; [reflexivity|]. cbn [find]. rewrite (has_ext p q E), IH. reflexivity. }
   apply H.
